@@ -4,7 +4,9 @@
 #![allow(dead_code, unused_imports, unused_variables, clippy::all, clippy::pedantic, missing_docs)]
 
 pub(crate) mod spec;
+pub(crate) mod state;
 pub(crate) mod h_kernel;
+pub(crate) mod h_arena;
 pub(crate) mod h_selftest;
 
 /// Concrete playback tests of failed obligations (generated on demand by vf/run_kani.py;
